@@ -164,7 +164,7 @@ def shape_source(shape, variant, shadow=False):
     if 'SL' in feats and feats['SL'] != 'meta':
         out += ['        self.sl = Leaf()']
     if not slots_cls:
-        out += ["        self.mut = 'live'", "        self.icont = [Leaf(), {'k': 1.5}]"]
+        out += ["        self.icont = [Leaf(), {'k': 1.5}]"]
         if shadow:
             # instance __dict__ entries with the names of the class-level descriptors
             out += ["        d = object.__getattribute__(self, '__dict__')"]
@@ -176,8 +176,11 @@ def shape_source(shape, variant, shadow=False):
                 "                                   if k not in ('__dict__', '__weakref__')",
                 '                                   and not isinstance(v, _types.MemberDescriptorType)})',
                 "C.__qualname__ = 'C'"]
-    out += ['', 'obj = C()', 'box = [obj, C]', "hold = _types.SimpleNamespace(o=obj, c=C)",
-            'unk = None', '']
+    out += ['', 'obj = C()']
+    if not slots_cls:
+        # the live object differs from what the source says (class body: mut = 1)
+        out += ["object.__getattribute__(obj, '__dict__')['mut'] = 'live'"]
+    out += ['box = [obj, C]', "hold = _types.SimpleNamespace(o=obj, c=C)", 'unk = None', '']
     return '\n'.join(out)
 
 
